@@ -426,10 +426,665 @@ fn enumerate(t: Tier) -> Box<dyn Iterator<Item = Case>> {
     }))
 }
 
+// ---------------------------------------------------------------------------
+// LARGE-SCALE sub-check: text length, number of sequences (sentinel occurrences), pattern length,
+// position i, minimum length l, bi-interval size, number of candidate intervals kept by smems, number of
+// reported matches and Occ rate across the ladder 255 .. 2^20 (see oracles/scale.rs).
+// Oracle: suffix automaton of the two-strand text (matching statistics -> all supermaximal matches with
+// their occurrence counts, O(n + m)), cross-checked against the brute-force SMEM oracle on a truncated
+// copy inside every case. Intervals are checked exactly through their boundary rows: the first and last
+// row start with the string, the rows just outside do not (the suffix array itself is verified first).
+
+pub mod large {
+    use super::*;
+    use crate::c0306_ladder_labels;
+    use crate::fail;
+    use crate::oracles::sa as sao;
+    use crate::oracles::scale::c0306::{self as sc, add_group, body_ranks, ladder, mix, Kind, LadderSub, Sam, Sm64};
+    use bio::data_structures::bwt::{Less, BWT};
+    use bio::data_structures::fmindex::{FMIndexable, Interval};
+    use std::borrow::Borrow;
+    use std::sync::Arc;
+
+    pub const N_LABELS: [&str; 12] = c0306_ladder_labels!("n");
+    pub const SEQ_LABELS: [&str; 12] = c0306_ladder_labels!("sentinel occurrences");
+    pub const M_LABELS: [&str; 12] = c0306_ladder_labels!("pattern length");
+    pub const I_LABELS: [&str; 12] = c0306_ladder_labels!("position i");
+    pub const L_LABELS: [&str; 12] = c0306_ladder_labels!("minimum length l");
+    pub const LEN_LABELS: [&str; 12] = c0306_ladder_labels!("SMEM length");
+    pub const IV_LABELS: [&str; 12] = c0306_ladder_labels!("bi-interval size");
+    pub const CAND_LABELS: [&str; 12] = c0306_ladder_labels!("candidate intervals");
+    pub const RES_LABELS: [&str; 12] = c0306_ladder_labels!("matches returned");
+    pub const WALK_LABELS: [&str; 12] = c0306_ladder_labels!("walk length");
+    pub const K_LABELS: [&str; 12] = c0306_ladder_labels!("Occ rate k");
+
+    const ALPHAS: [&[u8]; 5] = [b"ACGT", b"AC", b"ACGTNacgtn", b"AT", b"A"];
+
+    #[derive(Serialize, Deserialize, Debug, Clone)]
+    pub struct Seqs {
+        pub kind: Kind,
+        /// number of sequences (the text has 2*count sentinel occurrences)
+        pub count: usize,
+        /// length of each sequence
+        pub len: usize,
+        /// index into ACGT / AC / ACGTNacgtn / AT / A
+        pub alpha: u8,
+        /// all sequences equal (identical reads)
+        pub identical: bool,
+        pub seed: u64,
+    }
+
+    impl Seqs {
+        pub fn n(&self) -> usize {
+            2 * self.count * (self.len + 1)
+        }
+        fn build(&self) -> Vec<Vec<u8>> {
+            let tab = ALPHAS[(self.alpha as usize).min(4)];
+            (0..self.count)
+                .map(|j| {
+                    let sd = if self.identical { self.seed } else { mix(self.seed, j as u64) };
+                    body_ranks(self.kind, self.len, tab.len() as u16, sd).into_iter().map(|r| tab[r as usize]).collect()
+                })
+                .collect()
+        }
+    }
+
+    #[derive(Serialize, Deserialize, Debug, Clone)]
+    pub enum PatKind {
+        /// `len` symbols of sequence `seq` from `start` (fractions), reverse-complemented when `rc`;
+        /// afterwards every `every`-th symbol (0 = none) is replaced by another symbol of the sequence alphabet
+        Sub { seq: u16, start: u16, len: usize, rc: bool, every: usize },
+        /// copies of one symbol (rank in ACGTNacgtn)
+        Homo { sym: u8, len: usize },
+        /// the unit (ranks in ACGTNacgtn) repeated up to `len`
+        Periodic { unit: Vec<u8>, len: usize },
+        Rand { len: usize, seed: u64 },
+    }
+
+    #[derive(Serialize, Deserialize, Debug, Clone)]
+    pub struct Pat {
+        pub kind: PatKind,
+        /// positions (clamped to the pattern) at which smems is called
+        pub is: Vec<usize>,
+        pub l: usize,
+        /// also call all_smems
+        pub all: bool,
+    }
+
+    #[derive(Serialize, Deserialize, Debug, Clone)]
+    pub struct LWalk {
+        pub init: Init,
+        /// which sequence / where in it the walk starts (fractions)
+        pub seq: u16,
+        pub start: u16,
+        /// number of extension steps that follow the text
+        pub steps: usize,
+        /// 0 = forward, 1 = backward, 2 = alternate, 3 = blocks of 100
+        pub mode: u8,
+        /// one more step with this symbol (rank in ACGTNacgtn) at the end, forwards if `tail_fwd`
+        pub tail: u8,
+        pub tail_fwd: bool,
+    }
+
+    #[derive(Serialize, Deserialize, Debug, Clone)]
+    pub struct Case {
+        pub seqs: Seqs,
+        pub k: u32,
+        /// 0 = borrowed (From), 1 = owned, 2 = Arc, 3 = borrowed via from_fmindex_unchecked
+        pub own: u8,
+        pub patterns: Vec<Pat>,
+        pub walks: Vec<LWalk>,
+    }
+
+    fn build_pat(k: &PatKind, seqs: &[Vec<u8>], own: &[u8]) -> Vec<u8> {
+        let mut v: Vec<u8> = match k {
+            PatKind::Homo { sym, len } => vec![DNA10[(*sym as usize).min(9)]; *len],
+            PatKind::Periodic { unit, len } => (0..*len).map(|i| DNA10[(unit[i % unit.len()] as usize).min(9)]).collect(),
+            PatKind::Rand { len, seed } => {
+                let mut rng = Sm64::new(*seed);
+                (0..*len).map(|_| own[rng.below(own.len())]).collect()
+            }
+            PatKind::Sub { seq, start, len, rc, every } => {
+                let sq = &seqs[idx(*seq, seqs.len() - 1)];
+                let st = idx(*start, sq.len() - 1);
+                let e = (st + len).min(sq.len());
+                let mut v = sq[st..e].to_vec();
+                if *rc {
+                    v = revcomp(&v);
+                }
+                if *every > 0 {
+                    let mut j = *every - 1;
+                    while j < v.len() {
+                        let cur = own.iter().position(|&a| a == v[j]).unwrap_or(0);
+                        v[j] = if own.len() > 1 { own[(cur + 1) % own.len()] } else { b'N' };
+                        j += *every;
+                    }
+                }
+                v
+            }
+        };
+        if v.is_empty() {
+            v.push(own[0]);
+        }
+        v
+    }
+
+    struct Ctx<'a> {
+        c: &'a Case,
+        text: &'a [u8],
+        sa: &'a RawSuffixArray,
+        sam: &'a Sam,
+        max_iv: usize,
+    }
+
+    impl<'a> Ctx<'a> {
+        fn starts_with(&self, row: usize, s: &[u8]) -> bool {
+            let p = self.sa[row];
+            p + s.len() <= self.text.len() && &self.text[p..p + s.len()] == s
+        }
+
+        /// exact check of one interval: `iv` must be the block of rows whose suffixes start with `s`
+        fn check_block(&self, iv: &Interval, s: &[u8], cnt: usize, what: &str, which: &str) -> Result<(), Stop> {
+            let n = self.text.len();
+            ensure!(iv.lower <= iv.upper && iv.upper <= n, "{:?}: {}: {} interval {:?} of a string of length {} is not inside 0..{}", self.c.seqs, what, which, iv, s.len(), n);
+            let size = iv.upper - iv.lower;
+            ensure!(
+                size == cnt,
+                "{:?} k={}: {}: {} interval {:?} has {} rows but the string {} (length {}) occurs {} times in the text",
+                self.c.seqs, self.c.k, what, which, iv, size, sao::show(s), s.len(), cnt
+            );
+            if size > 0 {
+                ensure!(
+                    self.starts_with(iv.lower, s) && self.starts_with(iv.upper - 1, s),
+                    "{:?} k={}: {}: {} interval {:?}: its first or last row (text positions {} / {}) does not start with the string {} (length {})",
+                    self.c.seqs, self.c.k, what, which, iv, self.sa[iv.lower], self.sa[iv.upper - 1], sao::show(s), s.len()
+                );
+                ensure!(
+                    (iv.lower == 0 || !self.starts_with(iv.lower - 1, s)) && (iv.upper == n || !self.starts_with(iv.upper, s)),
+                    "{:?} k={}: {}: {} interval {:?} misses a neighbouring row that also starts with the string {} (length {})",
+                    self.c.seqs, self.c.k, what, which, iv, sao::show(s), s.len()
+                );
+            }
+            Ok(())
+        }
+
+        /// both intervals of `bi`: occurrences of `s` and of its reverse complement (the text holds both
+        /// strands of every sequence, so both strings occur equally often)
+        fn check_bi(&mut self, bi: &BiInterval, s: &[u8], cnt: usize, what: &str) -> Result<(), Stop> {
+            self.check_block(&bi.forward(), s, cnt, what, "forward")?;
+            self.check_block(&bi.revcomp(), &revcomp(s), cnt, what, "revcomp")?;
+            self.max_iv = self.max_iv.max(cnt);
+            Ok(())
+        }
+
+        /// number of occurrences of an arbitrary string (O(len))
+        fn count(&self, s: &[u8]) -> usize {
+            let ms = self.sam.matching_statistics(s);
+            let (l, c) = ms[s.len()];
+            if l as usize == s.len() {
+                c as usize
+            } else {
+                0
+            }
+        }
+    }
+
+    struct Seen {
+        max_m: usize,
+        max_len: usize,
+        max_cand: usize,
+        max_res: usize,
+        is: Vec<usize>,
+        ls: Vec<usize>,
+        filtered: bool,
+        dup: bool,
+        walk_steps: usize,
+        empty_walk: bool,
+    }
+
+    fn run<DBWT: Borrow<BWT>, DLess: Borrow<Less>, DOcc: Borrow<Occ>>(fmd: &FMDIndex<DBWT, DLess, DOcc>, cx: &mut Ctx, seqs: &[Vec<u8>], own: &[u8], seen: &mut Seen) -> Result<(), Stop> {
+        let c = cx.c;
+        for (pi, ps) in c.patterns.iter().enumerate() {
+            let p = build_pat(&ps.kind, seqs, own);
+            let m = p.len();
+            let l = ps.l;
+            ensure!(l >= 1, "harness: l = 0");
+            let all = cx.sam.smems(&p); // (start, len, occurrences), sorted
+            seen.max_m = seen.max_m.max(m);
+            seen.max_len = seen.max_len.max(all.iter().map(|x| x.1).max().unwrap_or(0));
+            seen.filtered |= all.iter().any(|x| x.1 < l) && all.iter().any(|x| x.1 >= l);
+            // number of candidate intervals smems keeps after the forward sweep from i: distinct occurrence
+            // counts of p[i..e) over e (computed by the oracle for the class label only)
+            let mut is: Vec<usize> = ps.is.iter().map(|&i| i.min(m - 1)).collect();
+            is.dedup();
+            for &i in &is {
+                let got = fmd.smems(&p, i, l);
+                let mut keys: Vec<(usize, usize)> = got.iter().map(|&(_, s, len)| (s, len)).collect();
+                keys.sort();
+                let expect: Vec<(usize, usize, usize)> = all.iter().cloned().filter(|&(s, len, _)| s <= i && i < s + len && len >= l).collect();
+                let ekeys: Vec<(usize, usize)> = expect.iter().map(|&(s, len, _)| (s, len)).collect();
+                ensure!(
+                    keys == ekeys,
+                    "{:?} k={} pattern #{} {:?} (length {}): smems(i={}, l={}) returned (start,len) {}; the supermaximal matches covering {} of length >= {} are {}",
+                    c.seqs, c.k, pi, ps.kind, m, i, l, sao::show_vec(&keys), i, l, sao::show_vec(&ekeys)
+                );
+                for (bi, s, len) in &got {
+                    let cnt = expect.iter().find(|x| x.0 == *s && x.1 == *len).map(|x| x.2).unwrap_or(0);
+                    cx.check_bi(bi, &p[*s..*s + *len], cnt, &format!("pattern #{} {:?}: smems(i={}, l={}) result (start {}, len {})", pi, ps.kind, i, l, s, len))?;
+                }
+                seen.is.push(i);
+                seen.ls.push(l);
+                seen.max_res = seen.max_res.max(got.len());
+                // class label: candidates after the forward sweep
+                let ms_from_i = {
+                    // occurrence counts of p[i..e) for growing e, until it stops occurring
+                    let st = cx.sam.matching_statistics(&p[i..]);
+                    let mut distinct = 0usize;
+                    let mut last = usize::MAX;
+                    for e in 1..st.len() {
+                        if st[e].0 as usize != e {
+                            break;
+                        }
+                        if st[e].1 as usize != last {
+                            distinct += 1;
+                            last = st[e].1 as usize;
+                        }
+                    }
+                    distinct
+                };
+                seen.max_cand = seen.max_cand.max(ms_from_i);
+            }
+            if ps.all {
+                let got = fmd.all_smems(&p, l);
+                let mut keys: Vec<(usize, usize)> = got.iter().map(|&(_, s, len)| (s, len)).collect();
+                keys.sort();
+                let with_dups = keys.len();
+                keys.dedup();
+                seen.dup |= with_dups > keys.len();
+                let expect: Vec<(usize, usize, usize)> = all.iter().cloned().filter(|&(_, len, _)| len >= l).collect();
+                let ekeys: Vec<(usize, usize)> = expect.iter().map(|&(s, len, _)| (s, len)).collect();
+                ensure!(
+                    keys == ekeys,
+                    "{:?} k={} pattern #{} {:?} (length {}): all_smems(l={}) returned {} distinct (start,len) {}; the {} supermaximal matches of length >= {} are {}",
+                    c.seqs, c.k, pi, ps.kind, m, l, keys.len(), sao::show_vec(&keys), ekeys.len(), l, sao::show_vec(&ekeys)
+                );
+                // intervals of at most 400 results, spread evenly
+                let stride = (got.len() / 400).max(1);
+                for (bi, s, len) in got.iter().step_by(stride) {
+                    let cnt = expect.iter().find(|x| x.0 == *s && x.1 == *len).map(|x| x.2).unwrap_or(0);
+                    cx.check_bi(bi, &p[*s..*s + *len], cnt, &format!("pattern #{} {:?}: all_smems(l={}) result (start {}, len {})", pi, ps.kind, l, s, len))?;
+                }
+                seen.max_res = seen.max_res.max(got.len());
+            }
+        }
+
+        for (wi, w) in c.walks.iter().enumerate() {
+            let sq = &seqs[idx(w.seq, seqs.len() - 1)];
+            let at = idx(w.start, sq.len() - 1);
+            let (mut lo, mut hi) = (at, at + 1);
+            let first = sq[at];
+            let mut bi = match w.init {
+                Init::With => fmd.init_interval_with(first),
+                Init::EmptyForward => fmd.forward_ext(&fmd.init_interval(), first),
+                Init::EmptyBackward => fmd.backward_ext(&fmd.init_interval(), first),
+            };
+            let cnt = cx.count(&sq[lo..hi]);
+            cx.check_bi(&bi, &sq[lo..hi], cnt, &format!("walk #{} {:?} start", wi, w))?;
+            let marks = ladder(w.steps);
+            let mut done = 0usize;
+            for step in 0..w.steps {
+                let want_fwd = match w.mode {
+                    0 => true,
+                    1 => false,
+                    2 => step % 2 == 0,
+                    _ => (step / 100) % 2 == 0,
+                };
+                let fwd = if want_fwd { hi < sq.len() || lo == 0 } else { !(lo > 0 || hi == sq.len()) };
+                if fwd {
+                    if hi == sq.len() {
+                        break;
+                    }
+                    bi = fmd.forward_ext(&bi, sq[hi]);
+                    hi += 1;
+                } else {
+                    if lo == 0 {
+                        break;
+                    }
+                    bi = fmd.backward_ext(&bi, sq[lo - 1]);
+                    lo -= 1;
+                }
+                done += 1;
+                let len = hi - lo;
+                if done <= 3 || done == w.steps || marks.binary_search(&done).is_ok() || marks.binary_search(&len).is_ok() {
+                    let cnt = cx.count(&sq[lo..hi]);
+                    cx.check_bi(&bi, &sq[lo..hi], cnt, &format!("walk #{} {:?} after {} steps (string = sequence[{}..{}])", wi, w, done, lo, hi))?;
+                }
+            }
+            seen.walk_steps = seen.walk_steps.max(done);
+            // one more step with an arbitrary symbol: the bi-interval of the extended string, empty iff it does not occur
+            let a = DNA10[(w.tail as usize).min(9)];
+            let mut s: Vec<u8> = sq[lo..hi].to_vec();
+            if w.tail_fwd {
+                s.push(a);
+                bi = fmd.forward_ext(&bi, a);
+            } else {
+                s.insert(0, a);
+                bi = fmd.backward_ext(&bi, a);
+            }
+            let cnt = cx.count(&s);
+            seen.empty_walk |= cnt == 0;
+            cx.check_bi(&bi, &s, cnt, &format!("walk #{} {:?} final step with {:?}", wi, w, a as char))?;
+        }
+        // FMIndexable of the FMD-index: backward search gives the same answers as on the FM-index
+        if let Some(ps) = c.patterns.first() {
+            let p = build_pat(&ps.kind, seqs, own);
+            let q = &p[..p.len().min(300)];
+            let (best, occ) = sc::longest_suffix_occurrences(q, cx.text);
+            let got = fmd.backward_search(q.iter());
+            let ok = match got {
+                bio::data_structures::fmindex::BackwardSearchResult::Complete(iv) => best == q.len() && sorted(iv.occ(cx.sa)) == occ,
+                bio::data_structures::fmindex::BackwardSearchResult::Partial(iv, l) => best > 0 && best < q.len() && l == best && sorted(iv.occ(cx.sa)) == occ,
+                bio::data_structures::fmindex::BackwardSearchResult::Absent => best == 0,
+            };
+            ensure!(ok, "{:?} k={}: FMDIndex::backward_search({}) = {:?}; the longest occurring suffix has length {} and occurs at {}", c.seqs, c.k, sao::show(q), got, best, sao::show_vec(&occ));
+            ensure!(fmd.bwt().len() == cx.text.len(), "{:?}: FMDIndex::bwt() has length {}", c.seqs, fmd.bwt().len());
+        }
+        Ok(())
+    }
+
+    /// suffix-automaton SMEMs against the brute-force oracle on a truncated copy
+    fn selfcheck(seqs: &[Vec<u8>], pats: &[Vec<u8>]) -> Result<(), Stop> {
+        let small: Vec<Vec<u8>> = seqs.iter().take(2).map(|s| s[..s.len().min(12)].to_vec()).collect();
+        let text = fmd_text(&small);
+        let sam = Sam::new(&text);
+        for p in pats {
+            for q in [&p[..p.len().min(10)], &p[p.len() - p.len().min(10)..]] {
+                let fast: Vec<(usize, usize)> = sam.smems(q).into_iter().map(|x| (x.0, x.1)).collect();
+                let slow = brute_smems(q, &text);
+                ensure!(fast == slow, "harness: oracle self-check: suffix automaton says {:?}, brute force says {:?} for pattern {:?} in text {:?}", fast, slow, lossy(q), lossy(&text));
+                for &(s, len, cnt) in &sam.smems(q) {
+                    let o = occurrences(&q[s..s + len], &text).len();
+                    ensure!(o == cnt, "harness: oracle self-check: suffix automaton counts {} occurrences of {:?}, the scan {}", cnt, lossy(&q[s..s + len]), o);
+                }
+            }
+        }
+        Ok(())
+    }
+
+    pub fn check(c: &Case) -> R {
+        ensure!(c.seqs.count >= 1 && c.seqs.len >= 1 && c.k >= 1 && !c.patterns.is_empty(), "harness: {:?} outside the domain", c);
+        let seqs = c.seqs.build();
+        let own: Vec<u8> = ALPHAS[(c.seqs.alpha as usize).min(4)].to_vec();
+        let text = fmd_text(&seqs);
+        let n = text.len();
+        let pats: Vec<Vec<u8>> = c.patterns.iter().map(|p| build_pat(&p.kind, &seqs, &own)).collect();
+        for p in &pats {
+            ensure!(!p.is_empty() && p.iter().all(|&a| comp(a).is_some()), "harness: pattern outside the domain in {:?}", c);
+        }
+        selfcheck(&seqs, &pats)?;
+
+        let alphabet = dna::n_alphabet();
+        let sa = suffix_array(&text);
+        // a wrong suffix array is C03's finding; every interval below is judged through it
+        let (t, m) = match sc::int_view(&text, &sa) {
+            Ok(x) => x,
+            Err(e) => fail!("suffix_array: {:?}: {}", c.seqs, e),
+        };
+        if let Err(e) = sc::verify_sorted(&t, &sa) {
+            fail!("suffix_array: {:?}: {}", c.seqs, e);
+        }
+        let bw = bwt(&text, &sa);
+        let le = less(&bw, &alphabet);
+        let oc = Occ::new(&bw, c.k, &alphabet);
+        let sam = Sam::new(&text);
+        let mut cx = Ctx { c, text: &text, sa: &sa, sam: &sam, max_iv: 0 };
+        let mut seen = Seen { max_m: 0, max_len: 0, max_cand: 0, max_res: 0, is: vec![], ls: vec![], filtered: false, dup: false, walk_steps: 0, empty_walk: false };
+        match c.own {
+            0 => run(&FMDIndex::from(FMIndex::new(&bw, &le, &oc)), &mut cx, &seqs, &own, &mut seen)?,
+            1 => run(&FMDIndex::from(FMIndex::new(bw.clone(), le.clone(), oc.clone())), &mut cx, &seqs, &own, &mut seen)?,
+            2 => run(&FMDIndex::from(FMIndex::new(Arc::new(bw.clone()), Arc::new(le.clone()), Arc::new(oc.clone()))), &mut cx, &seqs, &own, &mut seen)?,
+            _ => {
+                // the text is over the DNA alphabet with N and `$`, which is all the unchecked constructor asks for
+                let fmd = unsafe { FMDIndex::from_fmindex_unchecked(FMIndex::new(&bw, &le, &oc)) };
+                run(&fmd, &mut cx, &seqs, &own, &mut seen)?
+            }
+        }
+
+        let mut pass = Pass::new(seen.max_len >= 2);
+        add_group(&mut pass, &N_LABELS, n);
+        add_group(&mut pass, &SEQ_LABELS, m);
+        add_group(&mut pass, &M_LABELS, seen.max_m);
+        for p in &pats {
+            add_group(&mut pass, &M_LABELS, p.len());
+        }
+        for &i in &seen.is {
+            add_group(&mut pass, &I_LABELS, i);
+        }
+        for &l in &seen.ls {
+            add_group(&mut pass, &L_LABELS, l);
+        }
+        add_group(&mut pass, &LEN_LABELS, seen.max_len);
+        add_group(&mut pass, &IV_LABELS, cx.max_iv);
+        add_group(&mut pass, &CAND_LABELS, seen.max_cand);
+        add_group(&mut pass, &RES_LABELS, seen.max_res);
+        add_group(&mut pass, &WALK_LABELS, seen.walk_steps);
+        add_group(&mut pass, &K_LABELS, c.k as usize);
+        pass.add_if(cx.max_iv > 255, "bi-interval of >255 rows");
+        pass.add_if(cx.max_iv > 65_535, "bi-interval of >65535 rows");
+        pass.add_if(seen.max_cand > 255, ">255 candidate intervals after the forward sweep");
+        pass.add_if(seen.max_cand > 65_535, ">65535 candidate intervals after the forward sweep");
+        pass.add_if(seen.max_res > 255, ">255 matches returned");
+        pass.add_if(seen.max_len > 255, "SMEM longer than 255");
+        pass.add_if(seen.max_len > 65_535, "SMEM longer than 65535");
+        pass.add_if(seen.filtered, "l filters out a SMEM");
+        pass.add_if(seen.dup, "all_smems reports a match more than once");
+        pass.add_if(seen.empty_walk, "walk reaches the empty bi-interval");
+        pass.add_if(c.seqs.count >= 2, "several sequences");
+        pass.add_if(c.seqs.identical && c.seqs.count >= 2, "identical reads");
+        pass.add_if(text.iter().any(|a| a.is_ascii_lowercase()), "lowercase symbols in the text");
+        pass.add_if(text.iter().any(|&a| a == b'N' || a == b'n'), "N/n in the text");
+        pass.add(["borrowed", "owned", "Arc", "from_fmindex_unchecked"][(c.own as usize).min(3)]);
+        Ok(pass)
+    }
+
+    pub fn weight(c: &Case) -> u64 {
+        let n = c.seqs.n() as u64;
+        let mut w = n * 6 + 5000;
+        for p in &c.patterns {
+            let m = match &p.kind {
+                PatKind::Sub { len, .. } | PatKind::Homo { len, .. } | PatKind::Periodic { len, .. } | PatKind::Rand { len, .. } => *len as u64,
+            };
+            w += m * (p.is.len() as u64 + p.all as u64) * (c.k as u64 / 48 + 15) / 2;
+        }
+        for wk in &c.walks {
+            w += wk.steps as u64 * 40;
+        }
+        w
+    }
+
+    fn is_for(m: usize) -> Vec<usize> {
+        let mut v = vec![0usize, 1, m / 2, m.saturating_sub(2), m.saturating_sub(1)];
+        v.extend(ladder(m.saturating_sub(1)));
+        v.sort_unstable();
+        v.dedup();
+        // at most 14 positions: the ends and the largest ladder values
+        if v.len() > 14 {
+            let keep: Vec<usize> = v[..3].iter().chain(v[v.len() - 11..].iter()).cloned().collect();
+            v = keep;
+        }
+        v
+    }
+
+    pub fn cases(t: Tier, seed: u64) -> Vec<Case> {
+        let mut v: Vec<Case> = Vec::new();
+        let reps = if t == Tier::Quick { 1 } else { 6 };
+        let ks: [u32; 10] = [1, 2, 3, 8, 64, 65, 128, 257, 4097, 65_537];
+        let sq = |kind: Kind, count: usize, len: usize, alpha: u8, identical: bool, s: u64| Seqs { kind, count, len, alpha, identical, seed: s };
+        let walk = |j: usize, steps: usize| LWalk { init: [Init::With, Init::EmptyForward, Init::EmptyBackward][j % 3], seq: (j * 7919 % 65536) as u16, start: [100u16, 30000, 65000][j % 3], steps, mode: (j % 4) as u8, tail: (j % 10) as u8, tail_fwd: j % 2 == 0 };
+        for rep in 0..reps {
+            let sd = |x: u64| mix(seed, 0xc06_0 + x * 1000 + rep as u64);
+            let mut i = 0usize;
+            // (1) text length ladder (n = 2*count*(len+1) is even: the middle value of each group), one and several sequences
+            for (vi, &n) in ladder(1 << 21).iter().filter(|&&n| n % 2 == 0).enumerate() {
+                let s = sd(vi as u64);
+                let huge = n > 131_073;
+                let mut specs = vec![sq(Kind::Random, 1, n / 2 - 1, 0, false, s)];
+                if !huge || t == Tier::Thorough {
+                    specs.push(sq(Kind::Homo, 1, n / 2 - 1, 4, false, s));
+                    specs.push(sq(Kind::Period(2), 1, n / 2 - 1, 1, false, s));
+                    specs.push(sq(Kind::Random, 8, n / 16 - 1, 2, false, s));
+                    specs.push(sq(Kind::Period(2), 1, n / 2 - 1, 3, false, s));
+                    specs.push(sq(Kind::Random, n / 64, 31, 0, true, s));
+                }
+                for spec in specs {
+                    i += 1;
+                    let m = 300.min(spec.len);
+                    let pats = vec![
+                        Pat { kind: PatKind::Sub { seq: 0, start: 20000, len: m, rc: false, every: 0 }, is: is_for(m), l: 1, all: true },
+                        Pat { kind: PatKind::Sub { seq: 40000, start: 5000, len: m, rc: true, every: 37 }, is: is_for(m), l: 1 + i % 40, all: true },
+                        Pat { kind: PatKind::Rand { len: 40, seed: s }, is: vec![0, 7, 39], l: 1 + i % 3, all: true },
+                        Pat { kind: PatKind::Homo { sym: 0, len: 300.min(spec.len) }, is: vec![0, 1, 298, 299], l: 2, all: true },
+                    ];
+                    let walks = vec![walk(i, 300.min(spec.len)), walk(i + 1, 40)];
+                    v.push(Case { seqs: spec, k: if huge { 64 } else { ks[i % 10] }, own: (i % 4) as u8, patterns: pats, walks });
+                }
+            }
+            // (2) number of sequences: 2*count sentinel occurrences
+            for (vi, &sn) in ladder(131_073).iter().enumerate() {
+                let s = sd(200 + vi as u64);
+                let count = (sn + 1) / 2;
+                for spec in [sq(Kind::Random, count, 3, 0, false, s), sq(Kind::Random, count, 7, 0, true, s)] {
+                    i += 1;
+                    let pats = vec![
+                        Pat { kind: PatKind::Sub { seq: 30000, start: 0, len: 7, rc: false, every: 0 }, is: vec![0, 3, 6], l: 1, all: true },
+                        Pat { kind: PatKind::Rand { len: 30, seed: s }, is: vec![0, 15, 29], l: 2, all: true },
+                    ];
+                    v.push(Case { seqs: spec, k: ks[i % 9], own: (i % 4) as u8, patterns: pats, walks: vec![walk(i, 6)] });
+                }
+            }
+            // (3) pattern length / SMEM length / position i ladder on random sequences: whole-pattern match, mismatches
+            for (vi, &m) in ladder(1 << 19).iter().enumerate() {
+                let s = sd(400 + vi as u64);
+                i += 1;
+                let spec = sq(Kind::Random, 2, m + 500, 0, false, s);
+                let k = if m > 20_000 { [16u32, 64, 128][i % 3] } else { ks[i % 10] };
+                // all_smems is quadratic when l filters out long matches (it restarts at every position), so it
+                // is only called with a small l
+                let pats = vec![
+                    Pat { kind: PatKind::Sub { seq: 0, start: 0, len: m, rc: false, every: 0 }, is: is_for(m), l: 1, all: true },
+                    Pat { kind: PatKind::Sub { seq: 65535, start: 0, len: m, rc: true, every: m / 2 }, is: is_for(m), l: m / 2 - 1, all: false },
+                    Pat { kind: PatKind::Sub { seq: 65535, start: 0, len: m, rc: true, every: m / 2 }, is: vec![0, m / 2, m - 1], l: 5, all: true },
+                    Pat { kind: PatKind::Sub { seq: 0, start: 0, len: m.min(40_000), rc: false, every: 23 }, is: vec![0, m.min(40_000) / 2, m.min(40_000) - 1], l: 12, all: true },
+                ];
+                v.push(Case { seqs: spec, k, own: (i % 4) as u8, patterns: pats, walks: vec![walk(i, m), walk(i + 2, m.min(3000))] });
+            }
+            // (4) minimum length l on the ladder with SMEM lengths l-1, l, l+1 (segments between planted mismatches)
+            for (vi, &l) in ladder(131_073).iter().enumerate() {
+                let s = sd(600 + vi as u64);
+                i += 1;
+                let spec = sq(Kind::Random, 1, 4 * l + 500, 0, false, s);
+                let pats = vec![
+                    Pat { kind: PatKind::Sub { seq: 0, start: 100, len: 3 * l + 200, rc: false, every: l }, is: vec![0, l - 1, l, l + 1, 2 * l], l, all: l <= 1100 },
+                    Pat { kind: PatKind::Sub { seq: 0, start: 900, len: 3 * l + 200, rc: true, every: l + 1 }, is: vec![0, l, 2 * l + 1], l, all: l <= 1100 },
+                    Pat { kind: PatKind::Sub { seq: 0, start: 500, len: 3 * l + 200, rc: false, every: l - 1 }, is: vec![0, l - 2, l], l, all: l <= 1100 },
+                ];
+                v.push(Case { seqs: spec, k: [8u32, 64, 100][i % 3], own: (i % 4) as u8, patterns: pats, walks: vec![] });
+            }
+            // (5) bi-interval size and number of candidate intervals: homopolymers, dinucleotide repeats, identical reads
+            for (vi, &sz) in ladder(131_073).iter().enumerate() {
+                let s = sd(800 + vi as u64);
+                // A^sz: the bi-interval of A has sz rows; the forward sweep over A^m keeps one candidate per length
+                i += 1;
+                let m = sz.min(70_000);
+                v.push(Case {
+                    seqs: sq(Kind::Homo, 1, sz, 4, false, s),
+                    k: [3u32, 64, 128, 1000][i % 4],
+                    own: (i % 4) as u8,
+                    patterns: vec![
+                        Pat { kind: PatKind::Homo { sym: 0, len: m }, is: vec![0, 1, m - 1], l: 1, all: true },
+                        Pat { kind: PatKind::Homo { sym: 3, len: m.min(600) }, is: vec![0, m.min(600) / 2, m.min(600) - 1], l: 3, all: true },
+                        Pat { kind: PatKind::Periodic { unit: vec![0, 0, 0, 1], len: 200 }, is: vec![0, 3, 100], l: 1, all: true },
+                    ],
+                    walks: vec![walk(i, sz.min(5000))],
+                });
+                // (AC)^(sz): A, AC, ACA .. ; candidates change every second symbol
+                i += 1;
+                let m2 = (2 * sz).min(60_000);
+                v.push(Case {
+                    seqs: sq(Kind::Period(2), 1, 2 * sz, 1, false, s),
+                    k: [2u32, 65, 257][i % 3],
+                    own: (i % 4) as u8,
+                    patterns: vec![
+                        Pat { kind: PatKind::Sub { seq: 0, start: 0, len: m2, rc: false, every: 0 }, is: vec![0, 1, m2 - 1], l: 1, all: true },
+                        Pat { kind: PatKind::Sub { seq: 0, start: 0, len: m2.min(800), rc: true, every: 0 }, is: vec![0, m2.min(800) / 2, m2.min(800) - 1], l: 2, all: true },
+                    ],
+                    walks: vec![walk(i, 300)],
+                });
+                // identical reads: every substring of the read occurs sz times on each strand
+                if sz <= 32_769 || t == Tier::Thorough {
+                    i += 1;
+                    v.push(Case {
+                        seqs: sq(Kind::Random, sz, 15, 0, true, s),
+                        k: ks[i % 9],
+                        own: (i % 4) as u8,
+                        patterns: vec![
+                            Pat { kind: PatKind::Sub { seq: 0, start: 0, len: 15, rc: false, every: 0 }, is: vec![0, 7, 14], l: 1, all: true },
+                            Pat { kind: PatKind::Sub { seq: 0, start: 0, len: 15, rc: true, every: 6 }, is: vec![0, 5, 14], l: 2, all: true },
+                        ],
+                        walks: vec![walk(i, 14)],
+                    });
+                }
+            }
+            // (6) homopolymer pattern longer than the homopolymer in the text: quadratic candidate bookkeeping, moderate sizes
+            for (vi, &run) in [255usize, 256, 257, 511, 512, 513, 1023, 1024, 1025].iter().enumerate() {
+                if run > 600 && t == Tier::Quick {
+                    continue;
+                }
+                i += 1;
+                v.push(Case {
+                    seqs: sq(Kind::Homo, 1, run, 4, false, sd(900 + vi as u64)),
+                    k: ks[i % 8],
+                    own: (i % 4) as u8,
+                    patterns: vec![Pat { kind: PatKind::Homo { sym: 0, len: 2 * run + 7 }, is: vec![0, run, 2 * run + 6], l: 1 + (i % 2) * (run - 1), all: true }],
+                    walks: vec![],
+                });
+            }
+        }
+        v
+    }
+
+    pub fn sub() -> LadderSub<Case> {
+        LadderSub {
+            name: "C06/large",
+            cases,
+            weight,
+            check,
+            shards_quick: 16,
+            shards_thorough: 16,
+            must_reach: &[
+                N_LABELS[0], N_LABELS[1], N_LABELS[2], N_LABELS[3], N_LABELS[4], N_LABELS[5], N_LABELS[6], N_LABELS[7], N_LABELS[8], N_LABELS[9], N_LABELS[10], N_LABELS[11],
+                SEQ_LABELS[0], SEQ_LABELS[1], SEQ_LABELS[2], SEQ_LABELS[3], SEQ_LABELS[4], SEQ_LABELS[5], SEQ_LABELS[6], SEQ_LABELS[7], SEQ_LABELS[8], SEQ_LABELS[9],
+                M_LABELS[0], M_LABELS[1], M_LABELS[2], M_LABELS[3], M_LABELS[4], M_LABELS[5], M_LABELS[6], M_LABELS[7], M_LABELS[8], M_LABELS[9], M_LABELS[10],
+                I_LABELS[0], I_LABELS[1], I_LABELS[2], I_LABELS[3], I_LABELS[4], I_LABELS[5], I_LABELS[6], I_LABELS[7], I_LABELS[8], I_LABELS[9], I_LABELS[10],
+                L_LABELS[0], L_LABELS[1], L_LABELS[2], L_LABELS[3], L_LABELS[4], L_LABELS[5], L_LABELS[6], L_LABELS[7], L_LABELS[8], L_LABELS[9],
+                LEN_LABELS[0], LEN_LABELS[1], LEN_LABELS[2], LEN_LABELS[3], LEN_LABELS[4], LEN_LABELS[5], LEN_LABELS[6], LEN_LABELS[7], LEN_LABELS[8], LEN_LABELS[9], LEN_LABELS[10],
+                IV_LABELS[0], IV_LABELS[1], IV_LABELS[2], IV_LABELS[3], IV_LABELS[4], IV_LABELS[5], IV_LABELS[6], IV_LABELS[7], IV_LABELS[8], IV_LABELS[9],
+                CAND_LABELS[0], CAND_LABELS[1], CAND_LABELS[2], CAND_LABELS[3], CAND_LABELS[4], CAND_LABELS[5], CAND_LABELS[6], CAND_LABELS[7],
+                WALK_LABELS[0], WALK_LABELS[1], WALK_LABELS[2], WALK_LABELS[3], WALK_LABELS[4], WALK_LABELS[5], WALK_LABELS[6], WALK_LABELS[7], WALK_LABELS[8], WALK_LABELS[9],
+                K_LABELS[0], K_LABELS[3], K_LABELS[7],
+                "bi-interval of >255 rows", "bi-interval of >65535 rows", ">255 candidate intervals after the forward sweep", ">65535 candidate intervals after the forward sweep",
+                ">255 matches returned", "SMEM longer than 255", "SMEM longer than 65535", "l filters out a SMEM", "walk reaches the empty bi-interval",
+                "several sequences", "identical reads", "lowercase symbols in the text", "N/n in the text",
+                "borrowed", "owned", "Arc", "from_fmindex_unchecked",
+            ],
+        }
+    }
+}
+
 pub fn property() -> Property {
     Property {
         id: "C06",
-        rule: "random: 1-3 sequences of length 1..=14 (thorough: up to 40) over {AC}, {ACGT}, {ACGTN}, all ten symbols ACGTNacgtn, {ACac}, {ANTn} or a random 1-4 symbol subset; text = concat(s$revcomp(s)$) with the reverse complement computed by the harness; index alphabet dna::n_alphabet(); Occ rate 1..=130; pattern of length 1..=12 (thorough: up to 20; concatenated text substrings with 0-2 substitutions, or random); minimum length l in 1..=13; smems is called at EVERY pattern position and compared as a sorted (start,len) list (duplicates count as a mismatch) with the brute-force supermaximal matches covering that position of length >= l, all_smems (deduplicated) with all of them; every returned bi-interval's forward / revcomp interval must map through the suffix array to exactly the occurrences of the match / of its reverse complement; 1-2 extension walks (start init_interval_with(c) or init_interval() extended by c, then up to 10 forward_ext/backward_ext steps that mostly follow the text) are compared with the naive occurrence sets after every step, stopping once the bi-interval is empty. exhaustive: every sequence over {A,C,G} / {A,n,c} up to the stated length against every pattern over those letters and their complements. Non-trivial = the pattern has a supermaximal match of length >= max(2,l); distinct = distinct serialised case.",
+        rule: "random: 1-3 sequences of length 1..=14 (thorough: up to 40) over {AC}, {ACGT}, {ACGTN}, all ten symbols ACGTNacgtn, {ACac}, {ANTn} or a random 1-4 symbol subset; text = concat(s$revcomp(s)$) with the reverse complement computed by the harness; index alphabet dna::n_alphabet(); Occ rate 1..=130; pattern of length 1..=12 (thorough: up to 20; concatenated text substrings with 0-2 substitutions, or random); minimum length l in 1..=13; smems is called at EVERY pattern position and compared as a sorted (start,len) list (duplicates count as a mismatch) with the brute-force supermaximal matches covering that position of length >= l, all_smems (deduplicated) with all of them; every returned bi-interval's forward / revcomp interval must map through the suffix array to exactly the occurrences of the match / of its reverse complement; 1-2 extension walks (start init_interval_with(c) or init_interval() extended by c, then up to 10 forward_ext/backward_ext steps that mostly follow the text) are compared with the naive occurrence sets after every step, stopping once the bi-interval is empty. exhaustive: every sequence over {A,C,G} / {A,n,c} up to the stated length against every pattern over those letters and their complements. Non-trivial = the pattern has a supermaximal match of length >= max(2,l); distinct = distinct serialised case. LARGE-SCALE (C06/large; enumerated parameter cases): text length, number of sequences, pattern length, position i, minimum length l, SMEM length, bi-interval size, number of candidate intervals after the forward sweep (homopolymer / dinucleotide patterns), number of matches returned, walk length and Occ rate on the ladder 255..2^20; oracle = suffix automaton of the two-strand text (matching statistics -> every supermaximal match with its occurrence count), cross-checked against the brute-force SMEM oracle on a truncated copy inside every case; each returned interval must be exactly the block of rows starting with the match / its reverse complement (first and last row start with it, the neighbouring rows do not, size = occurrence count; the suffix array is verified first); owned / Arc / from_fmindex_unchecked constructions and FMDIndex::backward_search are exercised as well.",
         assumptions: &[
             "sequences are non-empty and over ACGTNacgtn; the index is built with dna::n_alphabet() from s$revcomp(s)$ per sequence",
             "patterns and extension symbols are over ACGTNacgtn; l >= 1",
@@ -458,6 +1113,7 @@ pub fn property() -> Property {
                 watch: false,
             }),
             Box::new(ExhSub { name: "C06/exhaustive", enumerate, check, must_reach: &["several SMEMs cover one position", "N/n in the text"] }),
+            Box::new(large::sub()),
         ],
     }
 }
